@@ -444,7 +444,9 @@ def loop_cond(ctx: Ctx):
         return
     have = formula_of(ctx, fn, outer.test)
     need = formula_of(ctx, fn, f'(len({svar}.{sf.pending}) > 0) or ({src(pcs[0])} > 0)')
-    ok = equivalent(have, need)
+    # pending_task_count() is a length (checked below), hence non-negative: `!= 0` is the same test
+    need_ne = formula_of(ctx, fn, f'(len({svar}.{sf.pending}) > 0) or ({src(pcs[0])} != 0)')
+    ok = equivalent(have, need) or equivalent(have, need_ne)
     yield ctx.ob('C11.LOOP-COND', ok, fn, outer, 'loop while pending in state or in runner',
                  '' if ok else f'loop condition is {show(have)}, expected {show(need)}')
     for f in roles.impls(ctx, roles.RUNNER, 'pending_task_count'):
